@@ -730,10 +730,14 @@ func (pc *PeerConnection) CreateOffer(options *OfferOptions) (SessionDescription
 
 		// include unmatched local transceivers
 		if !isPlanB { //nolint:nestif
-			// update the greater mid if the remote description provides a greater one
-			if pc.currentRemoteDescription != nil {
+			// update the greater mid if the remote description, or a local offer
+			// that is still pending, provides a greater one
+			for _, desc := range []*SessionDescription{pc.currentRemoteDescription, pc.pendingLocalDescription} {
+				if desc == nil || desc.parsed == nil {
+					continue
+				}
 				var numericMid int
-				for _, media := range pc.currentRemoteDescription.parsed.MediaDescriptions {
+				for _, media := range desc.parsed.MediaDescriptions {
 					mid := getMidValue(media)
 					if mid == "" {
 						continue
